@@ -16,9 +16,11 @@ import (
 	"time"
 
 	"github.com/scrapli/scrapligo/channel"
+	"github.com/scrapli/scrapligo/driver/netconf"
 	"github.com/scrapli/scrapligo/driver/network"
 	"github.com/scrapli/scrapligo/driver/opoptions"
 	"github.com/scrapli/scrapligo/driver/options"
+	"github.com/scrapli/scrapligo/response"
 	"github.com/scrapli/scrapligo/util"
 
 	"verif/harness/sim"
@@ -34,6 +36,15 @@ func init() {
 		p := p
 		props[p] = prop{Run: func(seed uint64, n int, tier string) { runFaults(p, seed, n, tier) },
 			Replay: func(id string, raw json.RawMessage) {
+				if bytes.Contains(raw, []byte(`"nc_per_op"`)) {
+					var w struct {
+						C *ncPerOp `json:"nc_per_op"`
+					}
+					if json.Unmarshal(raw, &w) == nil && w.C != nil {
+						runNCPerOp(id, w.C)
+					}
+					return
+				}
 				if bytes.Contains(raw, []byte(`"hello_kind"`)) {
 					var nc ncCase
 					if json.Unmarshal(raw, &nc) == nil {
@@ -182,14 +193,130 @@ func runFaults(prop string, seed uint64, n int, tier string) {
 			ncs = append(ncs, c)
 		}
 	}
+	// C05: a per-operation timeout on a NETCONF RPC takes precedence over the connection-wide one
+	// (zero = the maximum): every (operation, per-operation setting, server delay) combination
+	var pos []*ncPerOp
+	if prop == "C05" {
+		for _, op := range []string{"getconfig", "commit", "get", "raw"} {
+			for _, per := range []string{"none", "zero", "long", "short"} {
+				for _, slow := range []bool{false, true} {
+					for _, ver := range []string{"1.0", "1.1"} {
+						pos = append(pos, &ncPerOp{Op: op, PerOp: per, Slow: slow, Version: ver})
+					}
+				}
+			}
+		}
+	}
 	nf := len(cases)
-	parallel(nf+len(ncs), func(i int) {
-		if i < nf {
+	parallel(nf+len(ncs)+len(pos), func(i int) {
+		switch {
+		case i < nf:
 			runFaultCase(caseID(prop, seed, i), cases[i])
-		} else {
+		case i < nf+len(ncs):
 			runNCCase(caseID(prop, seed, i), ncs[i-nf])
+		default:
+			runNCPerOp(caseID(prop, seed, i), pos[i-nf-len(ncs)])
 		}
 	})
+}
+
+// ncPerOp: one NETCONF RPC with a per-operation timeout against a server that answers at once or
+// only after twice the connection-wide timeout (300 ms).  none: the connection-wide timeout
+// applies; zero: the maximum; long: 3 s; short: 30 ms.
+type ncPerOp struct {
+	Op      string `json:"op"`
+	PerOp   string `json:"per_op"`
+	Slow    bool   `json:"slow"`
+	Version string `json:"version"`
+}
+
+func runNCPerOp(id string, c *ncPerOp) {
+	replay := map[string]interface{}{"nc_per_op": c}
+	defer watchCase(id, replay)()
+	cs := &Case{ID: id, Kind: "nc-per-op/" + c.PerOp, HypOK: true, Nontrivial: true, Replay: replay}
+	const conn = 300 * time.Millisecond
+	nc := &ncCase{Prop: "C05", HelloKind: "ok", Pref: c.Version, Caps: []string{base10, base11}, SessionID: "9"}
+	srv := &sim.NCServer{Hello: buildHello(nc)}
+	if c.Slow {
+		srv.Behaviours = []sim.Behaviour{sim.ReplyLate}
+	}
+	tr := sim.NewTransport(ncDev{srv, &ncDevState{lateJoined: map[int]bool{}}})
+	tr.MsgBoundaries = true
+	d, err := netconf.NewDriver("sim", options.WithCustomTransport(tr), options.WithReadDelay(20*time.Microsecond),
+		options.WithTimeoutOps(conn), options.WithNetconfPreferredVersion(c.Version))
+	if err != nil || d.Open() != nil {
+		cs.Oracle = "setup failed"
+		emit(cs)
+		return
+	}
+	defer d.Close()
+	const delay = 2 * conn
+	stop := make(chan struct{})
+	defer close(stop)
+	if c.Slow {
+		go func() {
+			t0 := time.Now()
+			for time.Since(t0) < 3*time.Second {
+				select {
+				case <-stop:
+					return
+				default:
+				}
+				var fr []byte
+				ok := false
+				tr.WithLock(func() { fr, ok = srv.Late[0] })
+				if ok && time.Since(t0) >= delay {
+					tr.Inject(append(sim.Atoms(fr), nil))
+					return
+				}
+				time.Sleep(time.Millisecond)
+			}
+		}()
+	}
+	var oo []util.Option
+	limit := conn
+	switch c.PerOp {
+	case "zero":
+		oo = append(oo, opoptions.WithTimeoutOps(0))
+		limit = 24 * time.Hour
+	case "long":
+		oo = append(oo, opoptions.WithTimeoutOps(3*time.Second))
+		limit = 3 * time.Second
+	case "short":
+		oo = append(oo, opoptions.WithTimeoutOps(30*time.Millisecond))
+		limit = 30 * time.Millisecond
+	}
+	t0 := time.Now()
+	var r *response.NetconfResponse
+	switch c.Op {
+	case "getconfig":
+		r, err = d.GetConfig("running", oo...)
+	case "commit":
+		r, err = d.Commit(oo...)
+	case "get":
+		r, err = d.Get("", oo...)
+	default:
+		r, err = d.RPC(append(oo, opoptions.WithFilter("<get-schema xmlns=\"urn:s\"><identifier>x</identifier></get-schema>"))...)
+	}
+	el := time.Since(t0)
+	cs.Obs = fmt.Sprintf("%s after %v", errClass(err), el.Round(time.Millisecond))
+	wantOK := !c.Slow || limit > delay
+	switch {
+	case wantOK && err != nil:
+		cs.Oracle = fmt.Sprintf("%s with per-operation timeout %q (effective %v, connection-wide %v): the server answered after %v but the call returned %v after %v",
+			c.Op, c.PerOp, limit, conn, map[bool]time.Duration{false: 0, true: delay}[c.Slow], err, el.Round(time.Millisecond))
+		cs.Sig = "C05:per-op-timeout-ignored"
+	case wantOK && (r == nil || !strings.Contains(r.Result, "<ok/>")):
+		cs.Oracle = "the call succeeded without the reply"
+		cs.Sig = "C05:per-op-no-reply"
+	case !wantOK && (err == nil || errClass(err) != "timeout"):
+		cs.Oracle = fmt.Sprintf("%s with per-operation timeout %q (effective %v): the server answers only after %v, the call returned %v after %v instead of a timeout", c.Op, c.PerOp, limit, delay, err, el.Round(time.Millisecond))
+		cs.Sig = "C05:per-op-no-timeout"
+	case !wantOK && (el < limit*8/10 || el > limit+200*time.Millisecond):
+		cs.Oracle = fmt.Sprintf("%s with per-operation timeout %q: timed out after %v, effective timeout %v", c.Op, c.PerOp, el.Round(time.Millisecond), limit)
+		cs.Sig = "C05:per-op-timeout-at-wrong-time"
+	}
+	emit(cs)
 }
 
 type faultRun struct {
